@@ -28,7 +28,7 @@ API
     type_name(T) / term_type(t) -> 'nat' | 'int' | 'real' | 'bool' | None
     free_vars(t)            -> sorted list of (name, type name)
     sample_points(vars, n, seed=0, extra=()) -> list of env dicts (deterministic)
-    refute_at_points(t, points) -> (env, None) for the first env where prop t is certainly FALSE
+    refute_at_points(t, points) -> (env, stats): first env at which prop t is certainly FALSE (env None: not refuted)
     check_identity(lhs, rhs, points) -> {'refuted': env | None, 'agree': k, 'unknown': k}
     is_exact(v), to_interval(v), endpoints(v), midpoint(v) helpers
 `env` maps variable names to Fractions (naturals / integers must get integral values).
